@@ -5,6 +5,11 @@
    alias.covstep <raw|fixed|pure> <n> | <mean values> | <cov values, row-major> | <fresh … | view …>
        →  <n'> | <new mean values> | <new cov values, row-major>
 
+   alias.meanstep <one|two|pure> <n> | <val values> | <fresh v1 v2 … | view i1 i2 …>
+       →  <n'> | <new val values>
+       (ADDED: the plain `Mean`; `one` = the code as it is, `two` = the two-statement rewrite
+        `_val -= _val/_n ; _val += obj/_n`, `pure` = scalar `Mean.push` per component; `MWF`)
+
    Values are rationals `p` or `p/q` (as everywhere in the driver), printed with `fmtRat`.
    `pure` feeds the values the observation shows in the given state to the functional model.
    Anything unparsable or ill-shaped (`WF` / `CWF` false) answers `bad-op`. -/
@@ -40,8 +45,32 @@ def aliasCovStep (mode : String) (st : CSt Rat) (o : Obs Rat) : Option (CSt Rat)
   | "pure" => some (covStepPure st (covReadObs st o))
   | _ => none
 
+/-! ADDED: the plain `Mean` (`alias.meanstep`) -/
+
+def aliasMeanStep (mode : String) (st : MSt Rat) (o : Obs Rat) : Option (MSt Rat) :=
+  if ¬ MWF st.val.length st o then none else
+  match mode with
+  | "one" => some (meanStepOne st o)
+  | "two" => some (meanStepTwo st o)
+  | "pure" => some (meanStepPure st (mReadObs st o))
+  | _ => none
+
+def fmtPair (n : Nat) (a : List Rat) : String := s!"{n} | {fmtRats a}"
+
+/-- `alias.meanstep <mode> <n> | <val values> | <obs>` (three groups) -/
+def aliasMeanDispatch (op mode n : String) (vs os : List String) : List String :=
+  match n.toNat?, vs.mapM parseRat, parseObs os with
+  | some n, some vs, some o =>
+      if op = "alias.meanstep" then
+        match aliasMeanStep mode ⟨vs, n⟩ o with
+        | some r => [fmtPair r.n r.val]
+        | none => ["bad-op"]
+      else ["bad-op"]
+  | _, _, _ => ["bad-op"]
+
 def aliasDispatch (ws : List String) : List String :=
   match splitBars ws with
+  | [[op, mode, n], vs, os] => aliasMeanDispatch op mode n vs os   -- ADDED (plain Mean)
   | [[op, mode, n], ms, vs, os] =>
       match n.toNat?, ms.mapM parseRat, vs.mapM parseRat, parseObs os with
       | some n, some ms, some vs, some o =>
